@@ -3888,7 +3888,7 @@ class TableCollection(metadata.MetadataProvider):
 
     def _check_trim_conditions(self):
         if self.migrations.num_rows > 0:
-            if (np.min(self.migrations.left) < np.min(self.edges.left)) and (
+            if (np.min(self.migrations.left) < np.min(self.edges.left)) or (
                 np.max(self.migrations.right) > np.max(self.edges.right)
             ):
                 raise ValueError(
